@@ -57,11 +57,13 @@
      predicate kinds, constants at almost every position, sqrt / ln under a
      no-raise hypothesis, progress for since-free formulas.
    Tie between the hand models of the operation classes and the Python text (DenseOnlineGen.v is GENERATED from
-   rtamt/semantics/{stl,arithmetic}/dense_time/online/*_operation.py by tools/py2coq_denseonline.py on every build;
-   intersection(), the bounded operations, predicate, constant and variable stay hand-modelled and are pinned by digest):
-   - C05_generated_operations: the generated update() of the 21 translated classes IS the hand model of its operation
-     (bin_update_g f / mul_update_g / unary_update f / fold_update g / since_update), for every type of stamps, every
-     state, every batch(es); None = an exception on both sides.
+   rtamt/semantics/{stl,arithmetic,iastl}/dense_time/online/*_operation.py by tools/py2coq_denseonline.py on every build;
+   intersection() and variable_operation.py stay hand-modelled and are pinned by digest):
+   - C05_generated_operations: the generated update() of the translated classes IS the hand model of its operation
+     (bin_update_g f / mul_update_g / unary_update f / fold_update g / since_update / pred_update_g, sat_scan / pred_update_ia /
+     the constant), for every type of stamps, every state, every batch(es); None = an exception on both sides.
+   - C05_generated_bounded_operations: the same for once[a,b] / historically[a,b] / since[a,b] / the constant on the stamps tz
+     (win_update_e / since_timed_update_g / const_update), in the states that satisfy the invariant win_wf.
    - C05_generated_binary_chunking: hence C05_binary_run holds of the generated and / or / implies / iff / xor /
      addition / subtraction / division / pow / log classes themselves.
    - C05_generated_merge: intersection() and _append() of online/intersection.py themselves, as re-generated on every build
@@ -75,8 +77,9 @@ From Coq Require Import List ZArith Lia.
 From RV Require Import Val Syntax Rho Dense DenseSem DenseLaws ExtZ DenseMerge DenseMergeCorrect DenseOnlineMerge DenseOnlineMergeCorrect
   DenseSinceCorrect DenseOnlineFold DenseOnlineFoldCorrect DenseOnlineWin DenseOnlineWinCorrect.
 From RV Require DenseOnlineMon DenseOnlineMonCorrect DenseOnlineMonMore DenseIA.
-From RV Require Import PyDense DenseOnlineGen DenseOnlineGenCorrect.
+From RV Require Import IA DenseEval PyDense DenseOnlineGen DenseOnlineGenCorrect DenseOnlineGenWinCorrect.
 From RV Require Import PyMerge MergeGen MergeGenCorrect.
+Import DenseOnlineMon.
 Import ListNotations.
 Local Open Scope Z_scope.
 
@@ -380,7 +383,7 @@ Theorem C05_generated_operations :
   (forall st b1 b2, S _ (Log_abs T) (gen_Log_update AR T tltb teqb st b1 b2) = B (a2 AR Log) (Log_abs T st) b1 b2) /\
   (* multiplication: last_output is forgotten at every update *)
   (forall st b1 b2 lo, gen_Multiplication_update AR T tltb teqb st b1 b2 =
-     match DenseOnlineMon.mul_update_g T tltb teqb (a2 AR Mul)
+     match mul_update_g T tltb teqb (a2 AR Mul)
              {| lbuf := Multiplication_sample_left_buf st; rbuf := Multiplication_sample_right_buf st; lout := lo |} b1 b2 with
      | None => None
      | Some (st', o) => Some (mk_Multiplication_state (lbuf st') (rbuf st'), o)
@@ -402,6 +405,23 @@ Theorem C05_generated_operations :
   (* since *)
   (forall st b1 b2, gen_Since_update AR T tltb teqb st b1 b2 =
      match since_update T tltb (Since_abs T st) (b1, b2) with None => None | Some (st', o) => Some (Since_conc T st', o) end) /\
+  (* predicate (STL): update and sat; predicate (IA-STL): update *)
+  (forall st l r, option_map (fun p => (Predicate_abs T (fst p), snd p)) (gen_Predicate_update AR T tltb teqb st l r)
+                  = pred_update_g AR T tltb teqb (Predicate_comparison_op st) (Predicate_abs T st) l r) /\
+  (forall st l r, gen_Predicate_sat AR T tltb teqb st l r
+                  = Some (st, sat_scan AR T (Predicate_comparison_op st) None (Predicate_subtraction_output st))) /\
+  (forall st l r, option_map (fun p => (IAPredicate_abs T (fst p), snd p)) (gen_IAPredicate_update AR T tltb teqb st l r)
+                  = pred_update_ia AR T tltb teqb (ia_kind (IAPredicate_semantics st) (IAPredicate_in_vars st) (IAPredicate_out_vars st))
+                      (Predicate_comparison_op (IAPredicate_base st)) (IAPredicate_abs T st) l r) /\
+  (forall st l r st' o, gen_IAPredicate_update AR T tltb teqb st l r = Some (st', o) ->
+     IAPredicate_semantics st' = IAPredicate_semantics st /\ IAPredicate_in_vars st' = IAPredicate_in_vars st /\
+     IAPredicate_out_vars st' = IAPredicate_out_vars st /\
+     Predicate_comparison_op (IAPredicate_base st') = Predicate_comparison_op (IAPredicate_base st)) /\
+  (forall c, Predicate_abs T (Predicate_init T c) = pred_init) /\
+  (* constant *)
+  (forall tzero tinf st, gen_Constant_update AR T tltb teqb tzero tinf st =
+     Some (mk_Constant_state (Constant_val st) false,
+           if Constant_is_first_sample st then [(tzero, Constant_val st); (tinf, Constant_val st)] else [])) /\
   (* __init__ and the functions handed to intersection() *)
   And_abs T (And_init T) = ostate0 /\ Since_abs T (Since_init T) = since_init /\ Once_prev (Once_init T) = bot /\
   Historically_prev (Historically_init T) = top /\ Always_prev (Always_init T) = top /\
@@ -409,6 +429,35 @@ Theorem C05_generated_operations :
   gen_m_power AR = a2 AR Pow /\ gen_m_log AR = a2 AR Log.
 Proof. exact @dense_online_gen_refines. Qed.
 Print Assumptions C05_generated_operations.
+
+(* the bounded operations once[a,b] / historically[a,b] / since[a,b] and the constant, as GENERATED from the Python text, on the stamps tz:
+   in every state that satisfies the invariant win_wf (started -> residual_start is the stamp of a sample; true of a fresh object and
+   preserved by update) the generated update IS the hand model win_update_e / since_timed_update_g / const_update *)
+Theorem C05_generated_bounded_operations :
+  forall (VS : Val) (AR : Arith VS),
+  (* once[a,b] *)
+  (forall st s, PO_e st ->
+     option_map (fun p => (OnceTimed_abs (fst p), snd p)) (gen_OnceTimed_update AR tz tlt teq tadd (T 0) st s) = once_timed_update_e (OnceTimed_abs st) s) /\
+  (forall b e, OnceTimed_abs (OnceTimed_init tz b e) = owin_init_e b e /\ PO_e (OnceTimed_init tz b e)) /\
+  (forall st s st' o, PO_e st -> gen_OnceTimed_update AR tz tlt teq tadd (T 0) st s = Some (st', o) -> PO_e st') /\
+  (* historically[a,b] *)
+  (forall st s, PH_e st ->
+     option_map (fun p => (HistoricallyTimed_abs (fst p), snd p)) (gen_HistoricallyTimed_update AR tz tlt teq tadd (T 0) st s)
+     = hist_timed_update_e (HistoricallyTimed_abs st) s) /\
+  (forall b e, HistoricallyTimed_abs (HistoricallyTimed_init tz b e) = hwin_init_e b e /\ PH_e (HistoricallyTimed_init tz b e)) /\
+  (forall st s st' o, PH_e st -> gen_HistoricallyTimed_update AR tz tlt teq tadd (T 0) st s = Some (st', o) -> PH_e st') /\
+  (* since[a,b] *)
+  (forall st l r, SinceTimed_wf st ->
+     option_map (fun p => (SinceTimed_abs_e (fst p), snd p)) (gen_SinceTimed_update AR tz tlt teq tadd (T 0) st l r)
+     = since_timed_update_g tz tlt teq (@wstate_e VS) once_timed_update_e hist_timed_update_e (SinceTimed_abs_e st) l r) /\
+  (forall b e, SinceTimed_abs_e (SinceTimed_init tz b e) = st_init (hwin_init_e 0 b) (owin_init_e b e) /\ SinceTimed_wf (SinceTimed_init tz b e)) /\
+  (forall st l r st' o, SinceTimed_wf st -> gen_SinceTimed_update AR tz tlt teq tadd (T 0) st l r = Some (st', o) -> SinceTimed_wf st') /\
+  (* constant *)
+  (forall st, gen_Constant_update AR tz tlt teq (T 0) TInf st =
+     match const_update (Constant_abs st) tt with None => None | Some (st', o) => Some (Constant_conc st', o) end) /\
+  (forall c, Constant_abs (Constant_init tz c) = const_init c).
+Proof. exact @dense_online_gen_bounded_refines. Qed.
+Print Assumptions C05_generated_bounded_operations.
 
 Theorem C05_generated_binary_chunking :
   forall (VS : Val) (AR : Arith VS) (s1 s2 : dsig) (bs : list (dsig * dsig)),
